@@ -733,7 +733,7 @@ func extractStatus(r cliResult) Val {
 //   roots      = what the walk is presented with (the model reads only this): ((traw) | (tn <utree>)) ...
 //   buildroots = the same forest with build hints: ((traw n<present>) | (tn <utree with hints>)) ...
 //   opts       = (n<stdin> n<carv2> n<no output argument: run in the directory outdir names (logical path)>)
-// observation: (status realroot fs-after)
+// observation: (status realroot fs-after stdout)
 func extractInput(fs, cwd Val, outdir, pathflag []byte, buildroots VL, opts Val) Val {
 	roots := VL{}
 	for _, r := range buildroots {
@@ -828,7 +828,10 @@ func runExtractCase(c *Ctx, in Val) Val {
 	if os.Getenv("VERIF_CLI_DEBUG") != "" {
 		fmt.Fprintf(os.Stderr, "car %q (cwd %s) exit=%d\nstderr: %s\n", args, cwdReal, res.exit, res.stderr)
 	}
-	return VL{extractStatus(res), rr, sb.snapshot()}
+	if outArg == "-" {
+		rr = VL{VT("none")} // standard output, not a directory
+	}
+	return VL{extractStatus(res), rr, sb.snapshot(), VB(res.stdout)}
 }
 
 func init() {
